@@ -270,6 +270,23 @@ def norm_bits(t, ctx: BitCtx):
                 if x.ext == 0 and y.ext == 0 and all(x.get(i) == 0 or y.get(i) == 0 for i in range(n)):
                     return BV([or_(x.get(i), y.get(i)) for i in range(n)], 0)
             return _atom(t, ctx)
+        if o == "*":
+            # multiplication by a power of two is a shift
+            for p_, q_ in ((a, b), (b, a)):
+                if q_.k == "const" and isinstance(q_.a[0], int) and not isinstance(q_.a[0], bool) and q_.a[0] > 0 and q_.a[0] & (q_.a[0] - 1) == 0:
+                    x = norm_bits(p_, ctx)
+                    if x is None:
+                        return None
+                    return BV([0] * (q_.a[0].bit_length() - 1) + x.bits, x.ext)
+        if o in (">=", "<") and b.k == "const" and isinstance(b.a[0], int) and not isinstance(b.a[0], bool) and b.a[0] > 0 and b.a[0] & (b.a[0] - 1) == 0:
+            # x >= 2**k for a value of k+1 bits: its top bit (x < 2**k: the negation)
+            k_ = b.a[0].bit_length() - 1
+            x = norm_bits(a, ctx)
+            if x is not None and x.high_clear(k_ + 1):
+                bit = x.get(k_)
+                if o == ">=":
+                    return BV([bit], 0)
+                return BV([(1 - bit) if bit in (0, 1) else TOP], 0)
         if o in ("-", "*", "//", "%", "**"):
             return _atom(t, ctx)
         if o in ("!=", "==") and b.k == "const" and b.a[0] == 0 and b.a[0] is not False:
